@@ -117,7 +117,7 @@ func sanitizeFile(s string) string {
 func solveOne(j solveJob, outDir string, budgetMs, seed int) {
 	ob := j.ob
 	t0 := time.Now()
-	defer func() { ob.Seconds = time.Since(t0).Seconds() }()
+	defer func() { ob.Seconds = time.Since(t0).Seconds(); ob.Total += ob.Seconds; ob.Tries++ }()
 	// syntactic shortcut: goal literally true
 	if strings.Contains(ob.Query, "(assert false)\n(check-sat)") {
 		ob.Result, ob.Solver = "unsat", "syntactic"
@@ -154,7 +154,7 @@ func solveOne(j solveJob, outDir string, budgetMs, seed int) {
 	ctx, cancel := context.WithCancel(context.Background())
 	defer cancel()
 	type r struct{ res, out, name string }
-	rc := make(chan r, len(solvers))
+	rc := make(chan r, len(solvers)+2)
 	for _, sp := range solvers {
 		sp := sp
 		go func() {
@@ -162,8 +162,27 @@ func solveOne(j solveJob, outDir string, budgetMs, seed int) {
 			rc <- r{res, out, sp.name}
 		}()
 	}
+	nRace := len(solvers)
+	// weakened variant: the same goal with the existentially quantified hypotheses dropped. Fewer hypotheses make a
+	// stronger statement, so `unsat` for the variant proves the obligation; any other answer of the variant is ignored.
+	if vtext, ok := dropExistsHyps(text); ok {
+		vfile := strings.TrimSuffix(file, ".smt2") + ".noex.smt2"
+		if err := os.WriteFile(vfile, []byte(vtext), 0o644); err == nil {
+			for _, sp := range solvers[:2] {
+				sp := sp
+				nRace++
+				go func() {
+					res, out := runSolver(ctx, sp, vfile, budgetMs, seed)
+					if res != "unsat" {
+						res = "unknown"
+					}
+					rc <- r{res, out, sp.name + "-fewer-hyps"}
+				}()
+			}
+		}
+	}
 	best := r{res: "unknown"}
-	for i := 0; i < len(solvers); i++ {
+	for i := 0; i < nRace; i++ {
 		x := <-rc
 		if x.res == "sat" && x.name == "z3" && strings.Contains(text, "(forall ") {
 			// z3 4.8.12 occasionally answers sat on quantified goals the newer solvers cannot decide: not trusted
@@ -186,6 +205,28 @@ func solveOne(j solveJob, outDir string, budgetMs, seed int) {
 	if ob.Result == "error" {
 		ob.Result = "unknown"
 	}
+}
+
+// dropExistsHyps removes the hypotheses (assert lines before the final, negated-goal assert) that contain an existential
+// quantifier. ok is false when there is nothing to drop.
+func dropExistsHyps(text string) (string, bool) {
+	lines := strings.Split(text, "\n")
+	last := -1
+	for i, l := range lines {
+		if strings.HasPrefix(l, "(assert ") {
+			last = i
+		}
+	}
+	dropped := false
+	var kept []string
+	for i, l := range lines {
+		if i != last && strings.HasPrefix(l, "(assert ") && strings.Contains(l, "(exists ") {
+			dropped = true
+			continue
+		}
+		kept = append(kept, l)
+	}
+	return strings.Join(kept, "\n"), dropped
 }
 
 func modelOf(res, out string) string {
